@@ -212,7 +212,7 @@ func (c *checkCtx) runNativeOnly(h HarnessSpec) {
 			c.known = append(c.known, fmt.Sprintf("KNOWN-FINDING: property=%s %s [%s in %s]", c.spec.ID, f.What, lab, h.Fn))
 			continue
 		}
-		keep := filepath.Join(verifDir(), "replays", c.spec.ID, "native-"+h.Fn)
+		keep := filepath.Join(outDir(), "replays", c.spec.ID, "native-"+h.Fn)
 		os.MkdirAll(keep, 0o755)
 		os.WriteFile(filepath.Join(keep, "inputs.json"), b, 0o644)
 		os.WriteFile(filepath.Join(keep, "native_output.txt"), []byte(out), 0o644)
@@ -332,7 +332,7 @@ func (c *checkCtx) runHarness(h HarnessSpec, workers int) {
 // replay re-runs the harness (or its native twin) as an ordinary Go test against /repo.
 func (c *checkCtx) replay(h HarnessSpec, v gosym.Violation) (bool, string, string) {
 	sum := sha1.Sum([]byte(fmt.Sprint(v.Label, v.Inputs, h.Fn)))
-	dir := filepath.Join(verifDir(), "replays", c.spec.ID, fmt.Sprintf("%x", sum[:6]))
+	dir := filepath.Join(outDir(), "replays", c.spec.ID, fmt.Sprintf("%x", sum[:6]))
 	os.MkdirAll(dir, 0o755)
 	fn := h.Fn
 	if h.Native != "" {
@@ -520,8 +520,8 @@ func (c *checkCtx) writeEvidence() {
 		"assumptions": spec.Assumptions, "wall_s": time.Since(c.t0).Seconds(), "violations": len(c.violations),
 	}
 	b, _ := json.MarshalIndent(ev, "", " ")
-	os.MkdirAll(filepath.Join(verifDir(), "evidence"), 0o755)
-	os.WriteFile(filepath.Join(verifDir(), "evidence", spec.ID+".json"), b, 0o644)
+	os.MkdirAll(filepath.Join(outDir(), "evidence"), 0o755)
+	os.WriteFile(filepath.Join(outDir(), "evidence", spec.ID+".json"), b, 0o644)
 }
 
 
